@@ -414,6 +414,27 @@ def run(chk, tier):
             cls = "pretty" if "#" in spec else "plain"
             chk.violation("text differs from std (%s; %s mode)" % (c.meta["desc"], cls), c.meta["src"], res.detail[:1500])
     chk.part("engine", bins_built=eng.bins_built, rounds=eng.rounds, build_s=round(eng.build_s, 1))
+    # ---- packed representations: std's derive copies the fields out (references to packed fields may be unaligned)
+    pcases = []
+    for k, (reprs, body, ctor) in enumerate((("packed", "(pub u8, pub u32);", "(1, 2)"), ("packed", "{ pub a: u8, pub b: u32 }", "{ a: 1, b: 2 }"), ("C, packed", "(pub u8, pub u64, pub u16);", "(1, 2, 3)"),
+                                             ("packed(2)", "{ pub a: u8, pub b: u32 }", "{ a: 1, b: 2 }"))):
+        src = "#[derive(derive_more::Debug, Clone, Copy)] #[repr(%s)] pub struct P%s" % (reprs, body)
+        mod = "use super::*;\n%s\npub mod stdtwin { #[derive(Debug, Clone, Copy)] #[repr(%s)] pub struct P%s }\npub fn run(r: &mut R) {\n    r.eq(\"packed struct prints as std prints it\", format!(\"{:?}|{:#?}\", P%s, P%s), format!(\"{:?}|{:#?}\", stdtwin::P%s, stdtwin::P%s));\n}" % (
+            src, reprs, body, ctor, ctor, ctor, ctor)
+        pcases.append(Case("p%d" % k, mod, meta={"src": src}))
+    peng = CompileEngine("C06P", per_bin=4)
+    pres = peng.run_cases(pcases)
+    for c in pcases:
+        res = pres[c.cid]
+        chk.count(states=1, transitions=max(res.ncmp, 1))
+        if res.compile == "ok" and res.run == "ok":
+            chk.outcome("agree/packed")
+            continue
+        chk.outcome("packed-%s/%s" % (res.compile, res.run))
+        msgs = sorted({d["message"] for d in res.diags}) or [res.detail[:200]]
+        # known finding: the class is "the item carries a packed repr", whatever the failure looks like
+        chk.violation("packed struct: %s" % msgs[0][:70], c.meta["src"], "; ".join(msgs[:3]), known_id="c06-repr-packed-not-supported")
+    chk.part("3_packed", programs=len(pcases), reference="std's derive on the identical definition in a sibling module")
     run_builder(chk, thorough)
     chk.assumptions += ["reference: std's #[derive(Debug)] on an identical definition (same identifiers, separate module); for skipped fields / field attributes hand-written std builders with finish_non_exhaustive / format_args!",
                         "known-finding class is decided by equality with an executable model of the defect (fields of tuple-shaped types formatted with `{:#?}` only in pretty mode), not by the mere presence of flags"]
